@@ -116,6 +116,19 @@ def inputs_for(tier: str, rng) -> list[tuple[bytes, int]]:
     qs = [b'"', b"'", b"`", b"\\", b"+", b"&", b" ", b"a", b".replace(", b"reverse(", b")", b",", b"/", b"-replace", b"unescape('", b"createobject("]
     for s in strings(qs, 4 if big else 3):
         data.append(s)
+    # very long runs of one special token, with and without an opener before / a closer after them
+    specials = [b"\\", b"\\\\", b'\\"', b'""', b"''", b"`\"", b"^", b"^^", b"(", b")", b"((", b"%", b"%2", b"&#", b"&#1;", b"=", b"A=", b"/", b"./", b"../", b"\\..",
+                b" ", b"\r", b"\r\n", b"+", b"&", b"_", b" + ", b"a.", b".a", b"@", b"a@", b":", b"0,", b"0x", b"-e ", b" /c ", b"\x00"]
+    for tok in specials:
+        for n in (30, 200) if not big else (30, 60, 200, 1000):
+            for opener, closer in ((b"", b""), (b'"', b""), (b"'", b""), (b'x = "', b'" + "'), (b"cmd /c ", b""), (b"http://a.b/", b""), (b"unescape('", b"")):
+                data.append((opener + tok * n + closer)[:4096])
+    # URLs behind a non-printable length byte that cuts them inside a bracketed host, a port, the userinfo
+    for url in (b"http://[::10:1000:0]/abc0def", b"http://u0:p0@[2001:db8::10]:8080/x0", b"https://a0.example.com:80800/p0?q=0#0", b"ftp://00.00.00.00/0"):
+        for n in range(4, len(url)):
+            if url[n:n + 1] == b"0":
+                data.append(bytes(9) + bytes([n]) + url)
+                data.append(b"\x01\x02\x03\x04\x05\x06\x07\x08\x0e\x0f" + bytes([n]) + url + b" tail")
     # repository inputs, mutations, token soup, binary garbage
     lits = drivers.repo_literals()
     data += lits
